@@ -49,8 +49,7 @@ noncomputable def encI (X Y Z : Fp) : Fp := (sqrtRatioFp 1 ((Z + Y) * (Z - Y) * 
 noncomputable def encZinv (X Y Z T : Fp) : Fp :=
   encI X Y Z * ((Z + Y) * (Z - Y)) * (encI X Y Z * (X * Y)) * T
 /-- the `rotate` decision -/
-def encRot (X Y Z T : Fp) : Prop := fpIsNeg (T * encZinv X Y Z T)
-instance (X Y Z T : Fp) : Decidable (encRot X Y Z T) := by unfold encRot; exact inferInstance
+abbrev encRot (X Y Z T : Fp) : Prop := fpIsNeg (T * encZinv X Y Z T)
 noncomputable def encX (X Y Z T : Fp) : Fp := if encRot X Y Z T then Y * sqrtM1 else X
 noncomputable def encY0 (X Y Z T : Fp) : Fp := if encRot X Y Z T then X * sqrtM1 else Y
 noncomputable def encDen (X Y Z T : Fp) : Fp :=
@@ -63,7 +62,15 @@ noncomputable def encS (X Y Z T : Fp) : Fp := fpAbs (encDen X Y Z T * (Z - encY 
 /-- `RistrettoPoint::compress` (field part: `s` before `as_bytes`). -/
 theorem compress_sh_eq (X Y Z T : Fp) :
     AlgRistretto.compress_sh zmodOps X Y Z T = [encS X Y Z T] := by
-  unfold encS encY encDen encY0 encX encRot encZinv encI fpAbs invSqrtAmD
+  unfold encS
+  unfold encY
+  unfold encDen
+  unfold encY0
+  unfold encX
+  unfold encZinv
+  unfold encI
+  unfold fpAbs
+  unfold invSqrtAmD
   generalize ha : Z + Y = a
   generalize hb : Z - Y = b
   alg_lets AlgRistretto.compress_sh [ha, hb]
@@ -77,6 +84,7 @@ theorem ct_eq_sh_eq (X1 Y1 Z1 T1 X2 Y2 Z2 T2 : Fp) :
     AlgRistretto.ct_eq_sh zmodOps X1 Y1 Z1 T1 X2 Y2 Z2 T2 =
       [c2f (X1 * Y2 = Y1 * X2 ∨ X1 * X2 = Y1 * Y2)] := by
   alg_lets AlgRistretto.ct_eq_sh
+  ring_nf
 
 /-! ## `elligator_ristretto_flavor` -/
 
